@@ -443,6 +443,8 @@ def main(run, args):
     if failing:
         run.violation("committer and receivers disagree on a commit", failing[:8])
     elif mism:
-        run.violation("rule model and implementation disagree", mism[:6], failing_input_found=False)
+        # the model is the RFC 9420 12.2 rule set: the proposal list on which the library decides
+        # otherwise IS the failing input
+        run.violation("the library commits / drops / refuses a proposal set against the RFC 9420 rules (rule model)", mism[:6])
     elif broken:
         run.violation("proof obligation or tie no longer checks: " + broken[0][0], [b[1] for b in broken], failing_input_found=False)
